@@ -5,7 +5,9 @@ mod prng;
 mod props;
 mod runner;
 mod scn;
+mod oracle;
 mod sess;
+mod wallet;
 mod world;
 
 use runner::{Opts, Prop, Tier};
@@ -19,6 +21,9 @@ macro_rules! dispatch {
     ($id:expr, $f:ident $(, $arg:expr)*) => {
         match $id {
             "C08" => $f(&props::c08::C08 $(, $arg)*),
+            "C05" => $f(&props::builder::C05 $(, $arg)*),
+            "C06" => $f(&props::builder::C06 $(, $arg)*),
+            "C07" => $f(&props::builder::C07 $(, $arg)*),
             other => {
                 eprintln!("harness error: no check registered for property {}", other);
                 std::process::exit(2)
